@@ -173,15 +173,41 @@ def gen_tree(rng):
             tree[m]["stmts"] = [cimport_stmt(pxds[(j * 2 + rng.randrange(2)) % len(pxds)], m)] + keep
         if m.endswith(".pyx") and rng.random() < 0.2:
             tree[m[:-4] + ".pxd"] = {"kind": "pxd", "v": 0, "stmts": []}
-    # merge duplicate cimports of the same module in one file into a list form sometimes
+    # side directories (not packages): each holds a module and its own same-named local 'loc.pxd'; a cimport of 'loc'
+    # resolves next to the cimporting file first, then on the include path (the tree root) - so the same module name
+    # denotes different files depending on who asks, within one cythonize() call
+    if rng.random() < 0.35:
+        dirs = rng.sample(["la", "lb", "lc"], rng.choice([1, 2, 2, 3]))
+        root_loc = rng.random() < 0.4
+        if root_loc:
+            tree["loc.pxd"] = {"kind": "pxd", "v": 0, "stmts": []}
+        for j, d in enumerate(dirs):
+            has_local = rng.random() < 0.8 or not root_loc
+            if has_local:
+                st = []
+                if rng.random() < 0.3 and pxds:
+                    st.append(["cimport", [mod_of(rng.choice([x for x in pxds if "/" not in x] or ["loc.pxd"]))]])
+                tree["%s/loc.pxd" % d] = {"kind": "pxd", "v": 0, "stmts": [x for x in st if x[1] != ["loc"]]}
+            m = "%s/n%d.pyx" % (d, j)
+            owner = ("%s/loc.pxd" % d) if has_local else "loc.pxd"
+            form = ["cimport", ["loc"]] if rng.random() < 0.5 else ["from_cimport", "loc", [const_name(owner)]]
+            tree[m] = {"kind": "pyx", "v": 1, "stmts": [form]}
+        if root_loc and rng.random() < 0.6:
+            # a root-level module cimporting 'loc' sees the root file
+            tree["mloc.pyx"] = {"kind": "pyx", "v": 1, "stmts": [["from_cimport", "loc", [const_name("loc.pxd")]]]}
     return tree
 
 
 # --------------------------------------------------------------------------
 # model
 
-def resolve(tree, modname):
-    for cand in (modname.replace(".", "/") + ".pxd",):
+def resolve(tree, modname, from_path=None):
+    cands = []
+    d = os.path.dirname(from_path) if from_path else ""
+    if d and (d + "/__init__.py") not in tree:
+        cands.append(d + "/" + modname.replace(".", "/") + ".pxd")      # next to a non-package source file first
+    cands.append(modname.replace(".", "/") + ".pxd")
+    for cand in cands:
         if cand in tree:
             return cand
     return None
@@ -218,7 +244,7 @@ def m_cimported(tree, path):
             else:
                 continue
             for n in names:
-                r = resolve(tree, n)
+                r = resolve(tree, n, f)
                 if r and r not in out:
                     out.append(r)
     return out
@@ -437,7 +463,10 @@ def simulate(case, rundir):
                 continue
             r2 = random.Random(st["seed"])
             pxds = sorted(p for p in tree if tree[p]["kind"] == "pxd" and os.path.splitext(p)[0] + ".pyx" not in tree
-                          and os.path.splitext(p)[0] + ".py" not in tree and p != "dz.pxd")
+                          and os.path.splitext(p)[0] + ".py" not in tree and p != "dz.pxd"
+                          and os.path.dirname(p) not in ("la", "lb", "lc") and p != "loc.pxd")
+            # ('loc' names a different file per directory; a chain that reaches both a local and the root loc.pxd from one
+            # module would give the compiler two modules of the same qualified name - an ill-formed project, not generated)
             if tree[f]["kind"] == "pxi":
                 continue
             keep = [s for s in tree[f]["stmts"] if s[0] in ("include", "decoy")]
